@@ -17,7 +17,9 @@ import (
 // kv is the item type used by the harness: ordered by key only, val tells stored versions apart.
 type kv struct{ k, v int }
 
-func (a kv) Less(b btree.Item) bool { return a.k < b.(kv).k }
+func (a kv) Less(b btree.Item) bool { return a.k < b.(keyer).key() }
+
+type btreeItem = btree.Item
 
 func showItem(i btree.Item) string {
 	if i == nil {
@@ -654,6 +656,8 @@ func (w *world) wrapperLine(f []string) string {
 			return "bad"
 		}
 		return "ok"
+	case f[0] == "wrace":
+		return w.race(f)
 	case f[0] == "wconc" && len(f) == 3:
 		lo, ok1 := pInt(f[1])
 		hi, ok2 := pInt(f[2])
@@ -778,6 +782,9 @@ func runCase(c corr.Case) corr.Result {
 			func() {
 				defer func() {
 					if e := recover(); e != nil {
+						if hf, ok := e.(harnessFatal); ok {
+							fatalExit(hf.msg) // quiescence could not be established: a harness error, never a verdict
+						}
 						outs = append(outs, "panic")
 					}
 				}()
